@@ -135,6 +135,13 @@ func (p *Program) LdLo(arg uint32) {
 	p.instructions = append(p.instructions, bpf.LoadAbsolute{Off: offset, Size: sizeOfUint32})
 }
 
+// Ja inserts an unconditional jump over the next skip instructions.
+// The destination is not a label, so the jump must only be used to skip
+// instructions that directly follow it.
+func (p *Program) Ja(skip uint32) {
+	p.instructions = append(p.instructions, bpf.Jump{Skip: skip})
+}
+
 // LdNr inserts an instruction to load the syscall number.
 func (p *Program) LdNr() {
 	p.instructions = append(p.instructions, bpf.LoadAbsolute{Off: syscallNumOffset, Size: sizeOfUint32})
